@@ -10,23 +10,21 @@ Proof.
   intros I. pose proof (release_all_inv _ _ I) as I'. split; [apply (i_bad _ _ I')|]. split; [apply (i_nodup _ _ I')|assumption].
 Qed.
 
-Lemma user_not_timer t : user_tag t = true -> timer_tag t = false.
-Proof. destruct t; cbn; congruence. Qed.
-
 Theorem user_objects_freed_exactly_once s roots : good false s roots ->
   forall o t, tag_of (hp s) o = Some t -> user_tag t = true ->
     cnt o (freed (release_all s roots)) = 1%nat /\ is_live (hp (release_all s roots)) o = false.
 Proof.
-  intros G o t Ht U. split; [eapply freed_exactly_once; eauto using user_not_timer|].
-  rewrite <- (release_all_tag s roots) in Ht. unfold tag_of in Ht. unfold is_live.
-  destruct (nth_error (hp (release_all s roots)) o) as [ob|] eqn:E; [|reflexivity]. injection Ht as Ht.
-  destruct (live ob) eqn:L; [|reflexivity].
-  pose proof (all_freed s roots G o ob E L) as Tm. rewrite Ht, (user_not_timer _ U) in Tm. discriminate.
+  intros G o t Ht U.
+  assert (Ho : (o < length (hp s))%nat).
+  { unfold tag_of in Ht. destruct (nth_error (hp s) o) eqn:E; [|discriminate]. eapply nth_some_lt; eassumption. }
+  split; [apply freed_exactly_once; assumption|].
+  unfold is_live. destruct (nth_error (hp (release_all s roots)) o) as [ob|] eqn:E; [|reflexivity].
+  exact (all_freed s roots G o ob E).
 Qed.
 
 (* What the model prints: if the first number of [run_gen false script] is 1, the graph the
    simulation has reached at its stopping point is one to which the theorems apply, and the
-   counters that follow are then forced: nothing user-visible alive. *)
+   counters that follow are then forced: nothing alive at all. *)
 Theorem run_ok_means_all_freed input :
   let '(w, roots, _) := stop_state false input in
   goodb false (w_st w) roots = true -> alive_users (hp (release_all (w_st w) roots)) = 0%N.
@@ -38,7 +36,7 @@ Proof.
   assert (Hin : In ob (filter (fun ob => user_tag (otag ob) && live ob) (hp (release_all (w_st w) roots)))) by (rewrite E; left; reflexivity).
   apply filter_In in Hin. destruct Hin as [Hin Hb]. apply andb_true_iff in Hb. destruct Hb as [U L].
   apply In_nth_error in Hin. destruct Hin as (o & Eo).
-  pose proof (all_freed _ _ Hg o ob Eo L) as Tm. rewrite (user_not_timer _ U) in Tm. discriminate.
+  pose proof (all_freed _ _ Hg o ob Eo) as Tm. congruence.
 Qed.
 
 (* the graph of an empty simulation (Sim::new, nothing else) is well formed *)
